@@ -17,11 +17,6 @@ pub enum Event {
         /// Site identifier
         site: &'static str,
     },
-    /// A list was created: its mutex guards the raw list
-    ListNew {
-        /// Address of the mutex
-        mutex: usize,
-    },
     /// A pointer to an element was computed from the buffer
     PtrMade {
         /// The element pointer
@@ -99,4 +94,26 @@ pub fn emit(event: Event) {
         let f: Sink = unsafe { std::mem::transmute::<usize, Sink>(p) };
         f(&event)
     }
+}
+
+/// Hook: a list mutex is about to be locked
+#[inline]
+pub fn list_lock(mutex: usize, site: &'static str) {
+    emit(Event::ListLock { mutex, site })
+}
+
+/// Hook: an element pointer is about to be dereferenced
+#[inline]
+pub fn ptr_use(ptr: usize, site: &'static str) {
+    emit(Event::PtrUse { ptr, site })
+}
+
+/// Is the list mutex at this address (from a [`Event::ListLock`]) free?
+///
+/// # Safety
+///
+/// The list the mutex belongs to must still be alive.
+pub unsafe fn list_mutex_is_free(mutex: usize) -> bool {
+    // SAFETY: guaranteed by the caller
+    unsafe { crate::value::list::verif_mutex_is_free(mutex) }
 }
